@@ -14,6 +14,7 @@ EXPLANATION = (
     "function stores an Action (by inferred type) or the result of current_action() into module-level, "
     "class-level or other process-global mutable state.  The interleaving semantics themselves are CPython's "
     "contextvars guarantees and are trusted, not analysed."
+    "  Generator-based coroutines (eliot.twisted.inline_callbacks) are resumed -- by send, throw, close or a bound method handed elsewhere -- only inside <own context>.run(...) (C15.ctx, C15.inside)."
 )
 RULE = ("obligation = the variable's definition, each use of it, and each store into global state examined by "
         "type; non-trivial = a definition/use/store site was resolved")
